@@ -248,8 +248,133 @@ fn fixed_char(len: usize) -> &'static str {
     }
 }
 
+/// sizes that cross the thresholds a refactoring could introduce (u8 / u16 counters, 256-wide blocks,
+/// 1024 / 4096 buffers), capped at `max`
+const SCALE_SIZES: &[usize] = &[255, 256, 257, 300, 1023, 1025, 4097, 65535, 65536, 65537];
+fn scale_size(rng: &mut Rng, max: usize) -> usize {
+    let ok: Vec<usize> = SCALE_SIZES.iter().copied().filter(|s| *s <= max).collect();
+    if ok.is_empty() { max } else { *rng.pick(&ok) }
+}
+
+/// SCALE stream: (text, max, ctx). Cost limits of the MODEL (not of the code): the clause checker evaluates a
+/// prefix sum per window boundary (#windows x #clusters), and the byte-window loop builds `rev (nrange 0 ws)`
+/// with the standard library's quadratic `rev` for every window (#windows x #clusters^2 / 3 list cells, 21 ns each).
+/// `fits` keeps a case below roughly 0.3 s of model time.
+fn fits(kind: usize, lens: &[usize], max: usize, ctx: usize) -> bool {
+    let n = lens.len();
+    if n == 0 {
+        return true;
+    }
+    let n_f = n as f64;
+    // possible_character_substrings: one walk over the runs per start position (0.2 us per run in the model)
+    let runs = 1 + lens.windows(2).filter(|w| w[0] != w[1]).count();
+    let starts = n - max.min(n) + 1;
+    if (starts as f64) * (runs as f64) > 3e6 {
+        return false;
+    }
+    if kind == 2 {
+        return true;
+    }
+    let step = max.saturating_sub(2 * ctx).max(1) as f64;
+    if kind == 1 || kind == 4 {
+        let per = (lens.iter().sum::<usize>() as f64 / n_f).max(1.0);
+        let step_chars = (step / per).max(1.0);
+        n_f * n_f * n_f / (3.0 * step_chars) <= 15e6
+    } else {
+        n_f * n_f / step <= 2e6
+    }
+}
+
+fn gen_scale(rng: &mut Rng, kind: usize, g: bool) -> (String, usize, usize) {
+    let bytes = kind == 1 || kind == 4;
+    // the longest prefix of `units` (a scale size if possible) that `fits`
+    let cut = |units: &[&str], max: usize, ctx: usize| -> String {
+        let mut k = units.len();
+        loop {
+            let s: String = units[..k].concat();
+            let lens: Vec<usize> = vh::split_clusters(&s, g).map(str::len).collect();
+            if fits(kind, &lens, max, ctx) || k <= 255 {
+                return s;
+            }
+            k = SCALE_SIZES.iter().rev().copied().find(|z| *z < k).unwrap_or(255);
+        }
+    };
+    match rng.below(10) {
+        0..=2 => {
+            // long text of mixed units (up to 1025 clusters, hundreds of runs), small windows: hundreds of windows
+            let n = scale_size(rng, 1025);
+            let profile = if bytes { 1 } else { rng.below(3) };
+            let units: Vec<&str> = (0..n).map(|_| unit(rng, profile)).collect();
+            let ctx = rng.below(7);
+            let max = 2 * ctx + 1 + rng.below(8) + if bytes { 12 * rng.below(2) } else { 0 };
+            (cut(&units, max, ctx), max, ctx)
+        }
+        3..=7 => {
+            // window sizes in the hundreds and thousands over a text made of long runs of equal byte length
+            // (run lengths cross 255 / 256 and 65535 / 65536: the counts of the run-length encoding)
+            let max = match rng.below(4) {
+                0 => scale_size(rng, 4097) - 1,
+                1 => scale_size(rng, 4097) + 1,
+                _ => scale_size(rng, 4097),
+            };
+            let ctx = match rng.below(8) {
+                0 => 0,
+                1 => 1,
+                2 => 7,
+                3 => 100.min(max / 3),
+                4 => 127.min(max / 3),
+                5 => 128.min(max / 3),
+                6 => (max - 1) / 2,
+                _ => max / 2 + rng.below(2),
+            };
+            // (65535..65537 clusters: ~1.2 s of model time per case, mostly reading the 2 MB input: 1 in 8)
+            let tcap = if rng.chance(1, 8) { 65537 } else { 4097 };
+            let target = scale_size(rng, tcap) + rng.below(3);
+            let mut units: Vec<&str> = vec![];
+            while units.len() < target {
+                let u = unit(rng, if bytes { 1 } else { 0 });
+                let r = scale_size(rng, 65537).min(target - units.len());
+                units.extend(std::iter::repeat(u).take(r));
+            }
+            (cut(&units, max, ctx), max, ctx)
+        }
+        _ => {
+            // one giant cluster (grapheme mode; hundreds to tens of thousands of code points in code-point mode):
+            // a letter with 127 / 128 / 150 / 512 / 2048 / 32768 combining marks = 255 / 257 / ... / 65537 bytes, or an
+            // emoji ZWJ chain; windows smaller (error "single character ... has more bytes") and larger than it
+            let before: String = (0..rng.below(6)).map(|_| unit(rng, 1)).collect();
+            let after: String = (0..rng.below(6)).map(|_| unit(rng, 1)).collect();
+            let zwj = rng.chance(1, 3);
+            let ctx = *rng.pick(&[0usize, 1, 3, 128]);
+            let which = rng.below(4);
+            let mut cands: Vec<usize> = vec![127, 128, 150, 512, 2048, 32768];
+            cands.truncate(rng.range(1, 6));
+            loop {
+                let marks = cands.pop().unwrap_or(127);
+                let giant: String = if zwj {
+                    std::iter::once("👩").chain(std::iter::repeat("\u{200d}💻").take(marks.min(2048) / 2)).collect()
+                } else {
+                    std::iter::once("e").chain(std::iter::repeat("\u{301}").take(marks)).collect()
+                };
+                let gb = giant.len();
+                let max = match which {
+                    0 => 2 * ctx + 1 + rng.below(12),
+                    1 => gb + ctx + rng.below(2),
+                    2 => gb + 2 * ctx + rng.below(2),
+                    _ => scale_size(rng, 4097),
+                };
+                let s = format!("{before}{giant}{after}");
+                let lens: Vec<usize> = vh::split_clusters(&s, g).map(str::len).collect();
+                if fits(kind, &lens, max, ctx) || cands.is_empty() {
+                    return (s, max, ctx);
+                }
+            }
+        }
+    }
+}
+
 impl Prop for C16 {
-    fn gen(&mut self, rng: &mut Rng, _tier: Tier, _i: usize, _n: usize) -> Val {
+    fn gen(&mut self, rng: &mut Rng, _tier: Tier, i: usize, _n: usize) -> Val {
         let g = rng.chance(1, 2);
         let kind = match rng.below(100) {
             0..=34 => 0,
@@ -258,6 +383,19 @@ impl Prop for C16 {
             85..=91 => 3,
             _ => 4,
         };
+        if i == 2 || rng.chance(1, 60) {
+            let (s, max, ctx) = gen_scale(rng, kind, g);
+            let n = CharString::new(&s, g).len();
+            let np = rng.below(4);
+            let probes = (0..np)
+                .map(|_| {
+                    let a = if rng.chance(1, 2) { rng.below(n + 3) } else { (n + 2).saturating_sub(rng.below(300)) };
+                    let b = if rng.chance(1, 8) { rng.below(n + 3) } else { a + rng.below(n + 3 - a.min(n + 2)) };
+                    (a, b)
+                })
+                .collect();
+            return input(kind, max, ctx, &s, g, probes);
+        }
         let stream = rng.below(100);
         let mut s = text(rng);
         let (max, ctx);
@@ -430,7 +568,9 @@ impl Prop for C16 {
 
         // 0. the windows
         let s2 = s.clone();
-        let wres = with_timeout(5000, move || {
+        // scale cases (long texts) get a longer budget on the shared machine
+        let budget = if s.len() >= 255 { 30000 } else { 5000 };
+        let wres = with_timeout(budget, move || {
             let r = match kind {
                 0 => windows(&s2, &WindowConfig::Character(max, ctx, g)),
                 1 => windows(&s2, &WindowConfig::Bytes(max, ctx, g)),
@@ -512,6 +652,35 @@ impl Prop for C16 {
             if let Some(widest) = lens.iter().max() {
                 if max > ctx.saturating_mul(2) && *widest > max - 2 * ctx && *widest <= max - ctx {
                     tags.push("grey".into());
+                }
+            }
+        }
+        // scale tags, derived from the input
+        {
+            let longest_run = {
+                let (mut best, mut cur, mut prev) = (0usize, 0usize, 0usize);
+                for b in &lens {
+                    cur = if *b == prev { cur + 1 } else { 1 };
+                    prev = *b;
+                    best = best.max(cur);
+                }
+                best
+            };
+            let widest = lens.iter().copied().max().unwrap_or(0);
+            let big_win = (255..1usize << 32).contains(&max) && kind != 2;
+            if lens.len() >= 255 || longest_run >= 255 || widest >= 255 || (big_win && s.len() >= 255) {
+                tags.push("scale".into());
+                if lens.len() >= 255 {
+                    tags.push("scale-text".into());
+                }
+                if longest_run >= 255 {
+                    tags.push("scale-run".into());
+                }
+                if widest >= 255 {
+                    tags.push("scale-cluster".into());
+                }
+                if big_win {
+                    tags.push("scale-window".into());
                 }
             }
         }
